@@ -13,6 +13,7 @@ from .. import build, gen, monitors
 from . import common as K
 
 ID = "C04"
+REACH_TARGETS = [('EKF.process_model', 'formak.python:ExtendedKalmanFilter.process_model'), ('EKF._construct_process', 'formak.python:ExtendedKalmanFilter._construct_process')]
 LEVEL = "exploration"
 RULE = ("random filter definitions (0-3 controls incl. none, with/without calibration, unequal "
         "per-control noise) x SPD covariances (identity, diagonal, random, near-singular cond<=1e6, "
